@@ -1160,6 +1160,9 @@ class Evaluator:
                 return self.builtin_method(fv, args, kwargs, st, ctx)
             if fv.func is None:
                 return self.call_lambda(fv, args, kwargs, st, ctx)
+            if any(d.split('(')[0].split('.')[-1] in ('lru_cache', 'cache') for d in fv.func.decorators):
+                # a memoised function hands back whatever an earlier call with equal arguments produced
+                return SymObj(f'{fv.func.qualname}({", ".join(self.describe(a_) for a_ in args)})@memo')
             return self.call_func(fv.func, args, kwargs, st, ctx, self_val=fv.self_val, closure=fv.closure)
         if isinstance(fv, ClassRef):
             return self.construct(fv.ci, args, kwargs, st, ctx)
